@@ -246,9 +246,10 @@ def kit_spec(c):
     return {"kind": "kit", "kit": c["kit"], "name": c["name"]}
 
 
-def instantiate_groups(rng, items, fixed=None, star=(0, 4)):
+def instantiate_groups(rng, items, fixed=None, star=(0, 4), allowed=None):
     """like instantiate, but the letters of capture group g are taken from fixed[g] when given
-    (and must fit the atoms); returns (word, {group: text})"""
+    (and must fit the atoms); returns (word, {group: text}); `allowed`, a list, receives the
+    codes accepted at each position of the word"""
     fixed = fixed or {}
     out = []
     groups = {}
@@ -280,6 +281,30 @@ def instantiate_groups(rng, items, fixed=None, star=(0, 4)):
         else:
             word = "".join(class_letter(rng, it[1]) for _ in range(rng.randrange(star[0], star[1] + 1)))
         out.append(word)
+        if allowed is not None:
+            allowed.extend([it[1]] * len(word))
         for g in stack:
             groups[g].append(word)
     return "".join(out), {g: "".join(v) for g, v in groups.items()}
+
+
+def mirror_next_overhangs(word, allowed, nenz):
+    """rewrite the letters that will be the next level's downstream overhang so that it is the reverse
+    complement of the next level's upstream overhang (a legitimate, if unusual, choice of fusion sites);
+    None when the letters are not free or the sites are not where expected"""
+    site, rsite = nenz["site"], rc(nenz["site"])
+    u = word.upper()
+    if u.count(site) != 1 or u.count(rsite) != 1:
+        return None
+    a = u.index(site) + len(site) + nenz["off"]                 # next-level upstream overhang [a, a+ovh)
+    b = u.index(rsite) - nenz["off"] - nenz["ovh"]              # next-level downstream overhang [b, b+ovh)
+    k = nenz["ovh"]
+    if a < 0 or b < 0 or a + k > len(word) or b + k > len(word) or not (a + k <= b or b + k <= a):
+        return None
+    new = rc(word[a:a + k])
+    if new.upper() == word[a:a + k].upper():
+        return None
+    for i, ch in enumerate(new):
+        if ch.upper() not in allowed[b + i]:
+            return None
+    return word[:b] + new + word[b + k:]
